@@ -243,6 +243,18 @@ check("C15", "exploration",
       "runtime monitoring: differential oracle across four interfaces to the same evaluation + valgrind memcheck on the C boundary",
       "DESIGN.md §3 C15")
 
+check("C16", "exploration",
+      "Evaluates each program (45 templates with randomised similar identifiers: suggestions, several failing places, "
+      "duplicate definitions, enumeration of up to 40 fields through every listing / manifesting function, traces, stack "
+      "limits; plus random generated programs) in two fresh processes (one with a shuffled pre-interned string pool), in a "
+      "long-lived process after a random history of values, errors, stack overflows and pool changes (long-lived state, fresh "
+      "state, and again), and a sample through three runs of the executable; requires byte-identical manifested text or full "
+      "error text (message + trace) in all of them.",
+      "No reference semantics is involved; the check says nothing about whether the common output is right. Relies on "
+      "ASLR (on in this sandbox) and on the pre-interned pool to move string addresses.",
+      "runtime monitoring: replay of the same evaluation under different process / address-space / history conditions with a byte-equality oracle",
+      "DESIGN.md §3 C16")
+
 NOT_APPLICABLE = []
 
 
